@@ -415,12 +415,20 @@ mod header_serde {
     where
         S: Serializer,
     {
-        serializer.collect_map(headers.iter().map(|(name, values)| {
-            (
-                name.as_str(),
-                values.iter().map(|v| v.as_str()).collect::<Vec<_>>(),
-            )
-        }))
+        // the header map iterates in the order of a randomly seeded hash: sort by name so that
+        // a response always serializes to the same bytes
+        let mut entries = headers
+            .iter()
+            .map(|(name, values)| {
+                (
+                    name.as_str(),
+                    values.iter().map(|v| v.as_str()).collect::<Vec<_>>(),
+                )
+            })
+            .collect::<Vec<_>>();
+        entries.sort_by(|a, b| a.0.cmp(b.0));
+
+        serializer.collect_map(entries)
     }
 
     pub fn deserialize<'de, D>(deserializer: D) -> Result<Headers, D::Error>
